@@ -39,6 +39,7 @@ type c08Ev struct {
 }
 
 type c08W struct {
+	zeroTrailer bool // the source runs with 'rdbchecksum no': its snapshots end in eight zero bytes instead of a CRC-64
 	r       *Run
 	stratum string
 	fs      *simfs.FS
@@ -237,7 +238,7 @@ func (w *c08W) fullSync() {
 	case 2:
 		size = int64(18 + g.Choose("fs.sizel", 3000))
 	}
-	data := snapBytes(key, off, size)
+	data := w.snapData(key, off, size)
 	f := newCfeed()
 	rw, err := w.ch.NewRdbWriter(f, off, size)
 	w.act("NewRdbWriter(off=%d,size=%d) key=%d err=%v", off, size, key, err)
@@ -770,7 +771,7 @@ func (w *c08W) interrogateBody(st *c08Session, img *simfs.FS, id string, im c08I
 		_, terr, ended := o.tap.snapshot()
 		w.served += int64(len(got))
 		if o.snap {
-			want := snapBytes(key, ro, rn)
+			want := w.snapData(key, ro, rn)
 			for i := range got {
 				if i >= len(want) {
 					return w.violate("C08.snapshot_wrong_byte", "snapshot reader delivered more than the snapshot", im, "id %s: snapshot (%d,%d) delivered %d bytes", tailID(id), ro, rn, len(got))
@@ -969,6 +970,7 @@ func (w *c08W) corrupt() *Violation {
 func runC08(r *Run, stratum string) *Violation {
 	g := r.Gen()
 	w := &c08W{r: r, stratum: stratum, keyOf: map[string]uint64{}, nextKey: 100}
+	w.zeroTrailer = r.Gen().Choose("zerotrailer", 6) == 0
 	w.logSize = int64(32 + g.Choose("logsize", 64))
 	switch g.Choose("logsizek", 3) {
 	case 1:
@@ -1032,4 +1034,17 @@ func runC08(r *Run, stratum string) *Violation {
 		simrt.Probe("c08_three_rotations")
 	}
 	return v
+}
+
+// snapData is the snapshot of history key as this run's source sends it. A source without snapshot checksums ends it in
+// eight zero bytes: its content never matches that recorded checksum, so with verification on the cache may refuse it
+// (it does) but must not serve an altered copy of it as if it had been checked.
+func (w *c08W) snapData(key uint64, off, n int64) []byte {
+	b := snapBytes(key, off, n)
+	if w.zeroTrailer && n > 8 {
+		for i := n - 8; i < n; i++ {
+			b[i] = 0
+		}
+	}
+	return b
 }
